@@ -131,6 +131,7 @@ Section Reforming.
     end.
   Ltac ysolve :=
     repeat first [ progress cbn [bind andb orb negb ykind_gen Month_discr]
+                 | progress autounfold with gen_new
                  | rewrite Month_eq_ok | rewrite Month_lt_ok | rewrite Month_le_ok
                  | rewrite Month_discr_of_Z by assumption
                  | rewrite is_julian_leap_year_ok | rewrite is_gregorian_leap_year_ok
@@ -191,8 +192,11 @@ Section Reforming.
   Lemma year_length_reforming y : in_i32 y ->
     Calendar_year_length rcal y = Ret (year_count (CR r) y).
   Proof.
-    intros Hy. unfold Calendar_year_length. cbn [rcal Calendar_f_0]. fold rcal.
-    rewrite year_kind_reforming by exact Hy. cbn [bind].
+    intros Hy. unfold Calendar_year_length. autounfold with gen_new.
+    rewrite ?year_kind_reforming by exact Hy.
+    change (Calendar_gap rcal) with (@Ret (option inner_ReformGap) (Some the_gap)).
+    cbn [bind rcal Calendar_f_0].
+    rewrite ?year_kind_reforming by exact Hy. cbn [bind].
     unfold the_gap. cbn [inner_ReformGap_f_pre_reform inner_ReformGap_f_post_reform inner_ReformGap_f_ordinal_gap inner_Date_f_year inner_Date_f_ordinal].
     change (to_u32 COMMON_YEAR_LENGTH) with 365. change (to_u32 LEAP_YEAR_LENGTH) with 366.
     unfold year_kind_of, year_count. rewrite old_days_eq, new_days_eq, incal_feb29.
